@@ -12,6 +12,14 @@ Two kinds of scripts, two Lean components:
                 connections of a client share it) above two or more real SocketTransportSinks; calls
                 of different methods are open at the same time and the replies are delivered in any
                 order, interleaved piece by piece
+
+Four interfaces: `hello` (the repository's generated test interface), `store` (c14_iface.py) and two
+with Thrift service inheritance, `derived` (c14_derived.py: Archive extends Store) and `derived2`
+(c14_derived2.py: Vault extends Archive).  The Thrift compiler leaves the `<m>_args` / `<m>_result`
+classes of an inherited method in the module of the service that declares it; the harness finds them
+through the modules' own METHODS / BASE (`owner_module`), the code under test through
+`MessageSerializer._FindClass`.  The Lean configuration is per method (name, nonvoid, declared), so
+the models need nothing for this.
 """
 import collections
 import random
@@ -33,7 +41,9 @@ THOROUGH = dict(gen=100000)
 TRUSTED = [
     'the Thrift library (thrift 0.24): pure-Python TBinaryProtocol and the generated Processor are the oracle',
     'hand-written generated-style interface harness/props/c14_iface.py (spec-driven read/write calling the '
-    'protocol methods the generated code calls)',
+    'protocol methods the generated code calls) and the two services extending it, c14_derived.py / '
+    'c14_derived2.py, laid out as the Thrift compiler lays out `service X extends Y`: own Iface(Y.Iface), '
+    'Processor(Y.Processor, Iface, TProcessor), `<m>_args`/`<m>_result` of the own methods only',
     'fake socket handle (recv/recv_into/send/sendall) delivering the reply stream in pieces',
     'several calls at once: a trivial router sink below the real ThriftSerializerSink stands in for balancer + pool; '
     'it forwards each call to the real SocketTransportSink (own ScalesSocket, own fake handle) the script names',
@@ -53,8 +63,11 @@ ASSUMPTIONS = [
     'interface have distinct names; no deadline is set on the calls',
 ]
 RULE = ('scripts drawn from the seeded generator (30% of them with 2-5 calls open at once on 2-4 connections) plus an '
-        'exhaustive sweep of every two-piece split and every truncation point of five fixed reply frames and of every '
-        'ordered pair of Store methods open at once with the replies in both orders; distinct = distinct (cfg, op list) where the op list '
+        'exhaustive sweep of every two-piece split and every truncation point of ten fixed reply frames and of every '
+        'ordered pair of Store methods open at once with the replies in both orders; about a quarter of the generated '
+        'scripts (single calls and several calls at once) use an interface with Thrift service inheritance (one and '
+        'two levels), own and inherited methods equally likely, and every (own, inherited) pair of methods of those '
+        'interfaces is open at once in either call order and either reply order; distinct = distinct (cfg, op list) where the op list '
         'carries arguments, reply and the concrete piece sizes; non-trivial = anything beyond an ASCII call '
         'answered by a normal value delivered in one piece')
 
@@ -143,21 +156,59 @@ def obj_to_fields(obj, spec):
 
 # ------------------------------------------------------------------ interfaces
 def iface(name):
-    """-> (service module, Iface, Processor class)"""
+    """-> (service module, Iface, Processor class)
+
+    hello     the repository's generated test interface
+    store     c14_iface:    service Store
+    derived   c14_derived:  service Archive extends Store      (one level of service inheritance)
+    derived2  c14_derived2: service Vault extends Archive      (two levels)"""
     if name == 'hello':
         from test.scales.thrift.gen_py.hello import Hello
         return Hello, Hello.Iface, Hello.Processor
+    if name == 'derived':
+        from props import c14_derived
+        return c14_derived, c14_derived.Iface, c14_derived.Processor
+    if name == 'derived2':
+        from props import c14_derived2
+        return c14_derived2, c14_derived2.Iface, c14_derived2.Processor
     from props import c14_iface
     return c14_iface, c14_iface.Iface, c14_iface.Processor
 
 
 HELLO_METHODS = ['hi']
 STORE_METHODS = ['ping', 'put', 'find', 'count', 'has', 'size', 'echo']
+DERIVED_OWN = ['flush', 'drop', 'latest', 'tally']
+DERIVED2_OWN = ['seal', 'purge', 'sealed']
+DERIVED_IFACES = ('derived', 'derived2')
+
+
+def owner_module(mod, method):
+    """the module that holds `<method>_args` / `<method>_result` of a method of the service of
+    `mod`, as the Thrift compiler lays them out: the module of the service that DECLARES the
+    method — the service's own module for its own methods, the module of the base service
+    (`extends`) for inherited ones.  This is the harness's own statement of the layout (the
+    modules' `METHODS` and `BASE`); it does not use the lookup of the code under test."""
+    m = mod
+    while m is not None:
+        own = getattr(m, 'METHODS', None)
+        if own is None or method in own:      # a compiler-generated module (Hello): no base service
+            return m
+        m = getattr(m, 'BASE', None)
+    return None
+
+
+def inheritance_depth(mod, method):
+    """0: own method of the service; 1: declared by its base service; 2: by the base's base"""
+    d, m = 0, mod
+    while m is not None and getattr(m, 'METHODS', None) is not None and method not in m.METHODS:
+        d, m = d + 1, getattr(m, 'BASE', None)
+    return d
 
 
 def method_info(mod, method):
-    args_cls = getattr(mod, method + '_args')
-    result_cls = getattr(mod, method + '_result')
+    home = owner_module(mod, method)
+    args_cls = getattr(home, method + '_args')
+    result_cls = getattr(home, method + '_result')
     spec = result_cls.thrift_spec or ()
     success = spec[0] if spec and spec[0] is not None else None
     declared = [e for e in spec[1:] if e is not None]
@@ -254,11 +305,20 @@ def gen_round(rng, tier, mod, method):
     return {'args': args, 'handler': handler, 'chunks': gen_chunks(rng)}
 
 
+def gen_method(rng, name):
+    """a method of the interface; for the derived interfaces own and inherited methods (of every
+    level) are equally likely"""
+    if name == 'derived':
+        return rng.choice(DERIVED_OWN if rng.random() < 0.5 else STORE_METHODS)
+    if name == 'derived2':
+        return rng.choice(rng.choice([DERIVED2_OWN, DERIVED_OWN, STORE_METHODS]))
+    return rng.choice(IFACE_METHODS[name])
+
+
 def gen_single(rng, tier):
-    if rng.random() < 0.3:
-        name, method = 'hello', 'hi'
-    else:
-        name, method = 'store', rng.choice(STORE_METHODS)
+    r = rng.random()
+    name = 'hello' if r < 0.22 else 'store' if r < 0.74 else 'derived' if r < 0.89 else 'derived2'
+    method = gen_method(rng, name)
     mod, _, _ = iface(name)
     nrounds = rng.choice([1, 1, 1, 2, 3])
     return {'iface': name, 'method': method, 'accel': rng.random() < 0.5, 'wrap': rng.random() < 0.65,
@@ -272,12 +332,19 @@ EXH = [
     ('store', 'find', [[1, ['s', '6b']], [2, ['i64', 7]]], ['raise', 3, [[1, ['s', '6e6f']]]]),
     ('store', 'count', [[1, ['i32', -1]], [2, ['i64', 2 ** 40]]], ['app', 6, '6f6f7073']),
     ('store', 'size', [], ['ret', None]),
+    # service inheritance: an own and an inherited method of the derived interface, and a method two levels up
+    ('derived', 'drop', [[2, ['st', [[1, ['i64', -1]]]]]], ['raise', 2, [[1, ['s', '6b']]]]),
+    ('derived', 'find', [[1, ['s', '6b']]], ['ret', ['st', [[2, ['i32', 3]]]]]),
+    ('derived2', 'put', [[2, ['b', True]]], ['raise', 1, [[1, ['s', '6e6f']]]]),
+    ('derived2', 'latest', [[1, ['s', 'c3a9']]], ['raise', 2, []]),
+    ('derived2', 'sealed', [[1, ['i64', 2 ** 40]]], ['ret', ['b', False]]),
 ]
 
 
 def exhaustive_single(tier, shard, shards):
-    """every split of the reply stream into two pieces and every truncation point, for five
-    fixed transactions, on both socket paths (quick: the wrapped path only)"""
+    """every split of the reply stream into two pieces and every truncation point, for ten
+    fixed transactions (five of them on the interfaces with service inheritance), on both socket
+    paths (quick: the wrapped path only)"""
     k = 0
     for (name, method, args, handler) in EXH:
         total = len(oracle(name, method, handler)[1]) + 4
@@ -411,7 +478,8 @@ def serve(name, payload, behaviour):
     decoded = None
     if handler.calls and names:
         mname, args = handler.calls[0]
-        args_cls = getattr(mod, mname + '_args', None)
+        home = owner_module(mod, mname)
+        args_cls = getattr(home, mname + '_args', None) if home is not None else None
         if args_cls is not None:
             entries = [e for e in args_cls.thrift_spec if e is not None]
             fields = []
@@ -434,7 +502,7 @@ def oracle(name, method, behaviour):
     tb = TMemoryBuffer()
     p = TBinaryProtocol(tb)
     p.writeMessageBegin(method, TMessageType.CALL, 0)
-    getattr(mod, method + '_args')().write(p)
+    method_info(mod, method)[0]().write(p)
     p.writeMessageEnd()
     dec, reply, _ = serve(name, tb.getvalue(), behaviour)
     return dec, reply
@@ -612,6 +680,7 @@ def run_single(script):
     mod, Iface, _ = iface(name)
     args_cls, result_cls, success, declared = method_info(mod, method)
     tags = set()
+    iface_tags(name, mod, method, tags)
     steps = []
     cfg = 'x%s %s (%s)' % (method.encode().hex(), 'T' if success is not None else 'F',
                            ' '.join(str(e[0]) for e in declared))
@@ -734,6 +803,19 @@ def run_single(script):
     return {'comp': COMPONENT, 'cfg': cfg, 'steps': steps, 'tags': sorted(tags)}
 
 
+def iface_tags(name, mod, method, tags):
+    """service inheritance: which interface, and where the called method's classes live"""
+    if name not in DERIVED_IFACES:
+        return
+    tags.add('iface-derived')
+    if name == 'derived2':
+        tags.add('iface-derived2')
+    d = inheritance_depth(mod, method)
+    tags.add('own-method' if d == 0 else 'inherited-method')
+    if d >= 2:
+        tags.add('inherited-two-levels')
+
+
 def pack_i32(n):
     from struct import pack
     return pack('!i', n)
@@ -783,7 +865,9 @@ def nontrivial(case):
 # a connection that is busy -> the next free one, ...) are resolved here, so that every op list
 # produced lies inside `wf` of the component.
 SHARED = 'thriftshared'
-IFACE_METHODS = {'hello': HELLO_METHODS, 'store': STORE_METHODS}
+IFACE_METHODS = {'hello': HELLO_METHODS, 'store': STORE_METHODS,
+                 'derived': STORE_METHODS + DERIVED_OWN,                       # inherited + own
+                 'derived2': STORE_METHODS + DERIVED_OWN + DERIVED2_OWN}
 MULTI_ONES = 48
 
 
@@ -792,16 +876,16 @@ def gen_handler(rng, tier, mod, method):
 
 
 def gen_multi(rng, tier):
-    name = 'hello' if rng.random() < 0.12 else 'store'
+    r = rng.random()
+    name = 'hello' if r < 0.10 else 'store' if r < 0.72 else 'derived' if r < 0.88 else 'derived2'
     mod, _, _ = iface(name)
-    methods = IFACE_METHODS[name]
     ncalls = rng.choice([2, 2, 2, 3, 3, 4, 5])
     nconn = rng.choice([2, 2, 3])
     events, pending, made = [], [], 0
     while made < ncalls or pending:
         r = rng.random()
         if made < ncalls and (not pending or r < 0.45):
-            method = rng.choice(methods)
+            method = gen_method(rng, name)
             args_cls = method_info(mod, method)[0]
             args = gen_fields(rng, tier, args_cls.thrift_spec, rng.choice([0.0, 0.2, 0.5]))
             handler = gen_handler(rng, tier, mod, method)
@@ -839,13 +923,24 @@ EXH_ANSWER = {
     'has': ([[1, ['s', '00ff']]], ['ret', ['b', True]]),
     'size': ([], ['ret', ['i32', 17]]),
     'echo': ([[1, ['s', 'c3a9']]], ['ret', ['s', '']]),
+    # Archive extends Store
+    'flush': ([], ['ret', None]),
+    'drop': ([[1, ['st', [[1, ['s', '6e']]]]], [2, ['st', [[1, ['i64', -1]], [3, ['st', [[1, ['i32', 5]]]]]]]]],
+             ['raise', 2, [[1, ['s', '6b']], [2, ['i32', 404]]]]),
+    'latest': ([[1, ['s', 'c3a9']]], ['ret', ['st', [[1, ['s', '6b']], [6, ['st', [[2, ['s', '']]]]]]]]),
+    'tally': ([[1, ['s', '00ff']], [2, ['b', False]]], ['ret', ['i32', -3]]),
+    # Vault extends Archive
+    'seal': ([[2, ['s', 'e697a5']]], ['raise', 3, [[1, ['i64', 2 ** 40]], [2, ['st', [[1, ['s', '6e6f']]]]]]]),
+    'purge': ([[1, ['st', [[2, ['i64', 9]]]]]], ['raise', 1, [[2, ['i32', 250]]]]),
+    'sealed': ([[1, ['i64', -2 ** 63]]], ['ret', ['b', True]]),
 }
 
 
 def exhaustive_multi(tier, shard, shards):
     """every ordered pair of methods of the Store interface open at once on two connections,
     the replies arriving in both orders (thorough: also interleaved byte by byte, and triples
-    sharing a third connection)"""
+    sharing a third connection); every (own, inherited) pair of methods of the two derived
+    interfaces, either called first, the replies in both orders"""
     k = 0
     orders = [[0, 1], [1, 0]]
     for x in STORE_METHODS:
@@ -870,6 +965,22 @@ def exhaustive_multi(tier, shard, shards):
                        'events': [['call', 0, x, 0, EXH_ANSWER[x][0], EXH_ANSWER[x][1], True],
                                   ['call', 1, y, 1, EXH_ANSWER[y][0], EXH_ANSWER[y][1]],
                                   ['send', 0], ['rest', 0, 'all'], ['rest', 1, 'all']]}
+    # service inheritance: every own method of a derived interface together with every inherited one, either
+    # called first, the replies arriving in both orders (the shared serializer remembers the classes it found)
+    for name, own, inherited in (('derived', DERIVED_OWN, STORE_METHODS),
+                                 ('derived2', DERIVED2_OWN, STORE_METHODS + DERIVED_OWN)):
+        for a in own:
+            for b in inherited:
+                for (x, y) in ((a, b), (b, a)):
+                    for order in orders:
+                        k += 1
+                        if k % shards != shard:
+                            continue
+                        yield {'kind': 'multi', 'iface': name, 'accel': bool(k % 2), 'wrap': bool(k % 3),
+                               'send_caps': None,
+                               'events': [['call', 0, x, 0, EXH_ANSWER[x][0], EXH_ANSWER[x][1]],
+                                          ['call', 1, y, 1, EXH_ANSWER[y][0], EXH_ANSWER[y][1]],
+                                          ['rest', order[0], 'all'], ['rest', order[1], 'all']]}
     if tier == 'thorough':
         for x in STORE_METHODS:
             for y in STORE_METHODS:
@@ -1112,7 +1223,9 @@ def run_multi(script):
             others = [j for j in order if j != k and calls[j]['serial'] > cl['serial']]
             if others:
                 tags.add('sent-after-later-call-was-serialized')
-            router.release(k, c)
+            if k in router.parked:
+                router.release(k, c)
+            # else the call never came out of the serializer sink (it failed there): nothing is sent
         else:
             router.route = c
             entries = [x for x in args_cls.thrift_spec if x is not None]
@@ -1137,6 +1250,10 @@ def run_multi(script):
                 tags.add('three-open')
         value_tags(args, tags)
         handler_tags(handler, success, declared, tags)
+        iface_tags(name, mod, method, tags)
+        if name in DERIVED_IFACES and any((inheritance_depth(mod, calls[j]['method']) == 0)
+                                          != (inheritance_depth(mod, method) == 0) for j in open_now):
+            tags.add('overlap-own-and-inherited')
         if reply is None:
             tags.add('oracle-rejected-call')
             reply = b''
